@@ -376,7 +376,7 @@ func (t *GzipPacked) UnmarshalTL(d *tl.Decoder) error {
 	}
 
 	// packed object can be a vector too, so predictions of outer decoder are required here
-	t.Obj, err = tl.DecodeUnknownObject(obj, d.GetExpectedTypes()...)
+	t.Obj, err = d.DecodeEmbeddedObject(obj)
 	if err != nil {
 		return errors.Wrap(err, "parsing gzipped object")
 	}
